@@ -291,6 +291,11 @@ func drawDPkg(t *rapid.T, excl map[string]bool, focus string) dpkg {
 		n = rapid.IntRange(2, 3).Draw(t, "nstructsFocus")
 		p.recFlag = true
 	}
+	if focus == "generic-nested" {
+		// focused shape: a generic struct with two type parameters, used by a later struct
+		n = rapid.IntRange(2, 3).Draw(t, "nstructsFocus")
+		p.recFlag = false
+	}
 	var pkgClasses []string
 	var nested []dty
 	for i := 0; i < n; i++ {
@@ -311,6 +316,15 @@ func drawDPkg(t *rapid.T, excl map[string]bool, focus string) dpkg {
 		}
 		if !p.recFlag && rapid.IntRange(0, 3).Draw(t, "generic") == 0 {
 			s.params = []string{"TA", "TB"}[:rapid.IntRange(1, 2).Draw(t, "nparams")]
+		}
+		if focus == "generic-nested" {
+			s.params = nil
+			if i == 0 {
+				s.params = []string{"TA", "TB"}
+			} else {
+				// later structs derive what the generic one derives, so that it is usable as a field type
+				s.classes = p.structs[0].classes
+			}
 		}
 		base := dBasic(p.monoidInt)
 		for _, prm := range s.params {
@@ -353,6 +367,36 @@ func drawDPkg(t *rapid.T, excl map[string]bool, focus string) dpkg {
 					ft = dty{expr: "*" + nd.expr, kind: "pointer", caps: nd.caps, nested: nd.nested, lit: func(t *rapid.T) string { return "ptrOf[" + nd.expr + "](" + nd.lit(t) + ")" }}
 				default:
 					ft = dty{expr: "[]" + nd.expr, kind: "slice", caps: nd.caps, nested: nd.nested, lit: func(t *rapid.T) string { return "[]" + nd.expr + "{" + nd.lit(t) + "}" }}
+				}
+			}
+			if focus == "generic-nested" {
+				prm := func(name string) dty {
+					for _, b := range base {
+						if b.param == name {
+							return b
+						}
+					}
+					return base[4]
+				}
+				switch {
+				case i == 0 && j == 0:
+					// which parameter the fields use first is drawn: the declaration order is TA, TB
+					ft = prm(rapid.SampledFrom([]string{"TB", "TB", "TA"}).Draw(t, "firstUsedParam"))
+				case i == 0 && j == 1 && s.fields[0].t.param != "":
+					ft = prm(map[string]string{"TA": "TB", "TB": "TA"}[s.fields[0].t.param])
+					if rapid.IntRange(0, 4).Draw(t, "otherParamUnused") == 0 {
+						ft = base[4]
+					}
+				case i > 0 && j == 0 && len(usable) > 0:
+					nd := usable[0]
+					switch rapid.IntRange(0, 3).Draw(t, "nestedWrap") {
+					case 0, 1:
+						ft = nd
+					case 2:
+						ft = dty{expr: "*" + nd.expr, kind: "pointer", caps: nd.caps, nested: nd.nested, lit: func(t *rapid.T) string { return "ptrOf[" + nd.expr + "](" + nd.lit(t) + ")" }}
+					default:
+						ft = dty{expr: "[]" + nd.expr, kind: "slice", caps: nd.caps, nested: nd.nested, lit: func(t *rapid.T) string { return "[]" + nd.expr + "{" + nd.lit(t) + "}" }}
+					}
 				}
 			}
 			if ft.expr == "" {
@@ -413,7 +457,7 @@ func drawDPkg(t *rapid.T, excl map[string]bool, focus string) dpkg {
 		}
 		s.values = [][]string{v0, v1, v2, draw(), append([]string{}, v0...)}
 		p.structs = append(p.structs, s)
-		if len(s.params) == 0 {
+		{
 			c := caps{}
 			for _, cl := range s.classes {
 				switch cl {
@@ -433,15 +477,22 @@ func drawDPkg(t *rapid.T, excl map[string]bool, focus string) dpkg {
 				}
 			}
 			sc := s
-			nested = append(nested, dty{expr: s.name, kind: "nested-struct", caps: c, nested: s.name, lit: func(t *rapid.T) string {
+			kind := "nested-struct"
+			if len(s.params) > 0 {
+				// a generic struct used by a later struct at its instantiation D[int, string]: the call site
+				// gombok emits for the derived instance function has to pass one instance per type parameter
+				// in the order that function declares them (whatever order the fields use the parameters in)
+				kind = "nested-generic"
+			}
+			nested = append(nested, dty{expr: s.instExpr(), kind: kind, caps: c, nested: s.name, lit: func(t *rapid.T) string {
 				var parts []string
 				for _, f := range sc.fields {
 					if f.t.kind == "self-pointer" {
 						continue
 					}
-					parts = append(parts, f.name+": "+f.t.lit(t))
+					parts = append(parts, f.name+": "+substD(f.t.lit(t), sc))
 				}
-				return sc.name + "{" + strings.Join(parts, ", ") + "}"
+				return sc.instExpr() + "{" + strings.Join(parts, ", ") + "}"
 			}})
 		}
 	}
@@ -692,6 +743,9 @@ func runDerivePackage(p dpkg) (fails []outcome, stage string) {
 	if g.TimedOut {
 		return []outcome{{"gombok|timeout", "gombok did not finish within 120 s"}}, "gombok"
 	}
+	if scratch.ToolchainTrouble(g.Out) {
+		return []outcome{{"infra|toolchain-trouble", clip(g.Out, 600)}}, "infra"
+	}
 	if g.ExitCode != 0 || strings.Contains(g.Out, "panic:") {
 		first := ""
 		for _, l := range strings.Split(g.Out, "\n") {
@@ -742,7 +796,32 @@ func runDerivePackage(p dpkg) (fails []outcome, stage string) {
 	return fails, "law"
 }
 
-const ruleC08 = "package spec drawn from a grammar: 1-3 @fp.Value structs (0-2 type parameters, optional recursion through a pointer, nesting of earlier derived structs), 1-7 fields over the kinds each typeclass package supports (ints, float64, string, bool, []byte, time.Time, Option, fp.Seq, slice, pointer, Go map, fp.Map, Tuple2, nested struct, type parameter), 1-3 @fp.Derive directives per struct out of Eq/Ord/Hashable/Monoid/Clone/Show, optional local overriding instances (EqInt = equality mod 10, OrdInt = descending, MonoidInt = Sum or Product); 5 values per struct (random, one field changed, a suffix changed, random, copy). Pipeline: gombok from the tree under test -> go build -> reflective law test with reference semantics (conjunction / lexicographic / field-wise / deep copy). Non-trivial iff a struct is nested, generic or recursive; distinct by rendered spec"
+const ruleC08 = "package spec drawn from a grammar: 1-3 @fp.Value structs (0-2 type parameters, optional recursion through a pointer, nesting of earlier derived structs, generic ones at the instantiation D[int, string]), 1-7 fields over the kinds each typeclass package supports (ints, float64, string, bool, []byte, time.Time, Option, fp.Seq, slice, pointer, Go map, fp.Map, Tuple2, nested struct, type parameter), 1-3 @fp.Derive directives per struct out of Eq/Ord/Hashable/Monoid/Clone/Show, optional local overriding instances (EqInt = equality mod 10, OrdInt = descending, MonoidInt = Sum or Product); 5 values per struct (random, one field changed, a suffix changed, random, copy). Pipeline: gombok from the tree under test -> go build -> reflective law test with reference semantics (conjunction / lexicographic / field-wise / deep copy). Non-trivial iff a struct is nested, generic or recursive; distinct by rendered spec"
+
+// DrawDeriveSource draws a package from the C08 grammar (source text of pa/types.go) for C13.
+func DrawDeriveSource(rt *rapid.T) (src string, labels []string) {
+	p := drawDPkg(rt, ExcludeDerive, "")
+	seen := map[string]bool{}
+	add := func(l string) {
+		if !seen[l] {
+			seen[l] = true
+			labels = append(labels, l)
+		}
+	}
+	add(fmt.Sprintf("structs:%d", len(p.structs)))
+	if p.recFlag {
+		add("recursive=true")
+	}
+	for _, s := range p.structs {
+		if len(s.params) > 0 {
+			add("generic")
+		}
+		for _, c := range s.classes {
+			add("class:" + c)
+		}
+	}
+	return p.source(), labels
+}
 
 // DeriveCheck registers the sub-check that runs generated packages with @fp.Derive through gombok.
 func DeriveCheck(t *testing.T, name string, casesPerProcess int, focus string) {
@@ -906,6 +985,9 @@ func PrecedenceCheck(t *testing.T, name string, casesPerProcess int) {
 		_ = m.WriteFile("pw/derive.go", pw)
 		for _, d := range []string{"pa", "pw"} {
 			g := m.RunGombok(d, d)
+			if scratch.ToolchainTrouble(g.Out) {
+				rec.Failf(rt, "HARNESS|infra|toolchain-trouble", "%s", clip(g.Out, 600))
+			}
 			if g.ExitCode != 0 || strings.Contains(g.Out, "panic:") {
 				if strings.Contains(g.Out, "can't summon") {
 					rec.Label("rejected")
@@ -915,7 +997,7 @@ func PrecedenceCheck(t *testing.T, name string, casesPerProcess int) {
 			}
 		}
 		if r := m.Go(180*time.Second, "build", "./..."); r.ExitCode != 0 {
-			if strings.Contains(r.Out, "no space left on device") {
+			if scratch.ToolchainTrouble(r.Out) {
 				rec.Failf(rt, "HARNESS|infra|resource-exhaustion", "%s", clip(r.Out, 400))
 			}
 			rec.Failf(rt, "C08|precedence|compile|"+class, "generated code does not compile: %s\n%s\n--- derive file:\n%s", clip(r.Out, 1200), desc, clip(m.ReadFile("pw/pw_derive_generated.go"), 1500))
